@@ -59,6 +59,26 @@ type genLine struct {
 
 // (the field order of genLine / step is the canonical form that is hashed)
 
+func endsWithEnding(g *genLine) bool {
+	n := len(g.Steps)
+	return n > 0 && (g.Steps[n-1].A == "close" || g.Steps[n-1].A == "error")
+}
+
+func onlyClasses(g *genLine, cs ...string) bool {
+	for _, st := range g.Steps {
+		if st.A == "send" {
+			ok := false
+			for _, c := range cs {
+				ok = ok || st.C == c
+			}
+			if !ok {
+				return false
+			}
+		}
+	}
+	return true
+}
+
 func reads(c string) int {
 	if c == "Bp1" || c == "big" {
 		return 2
@@ -78,13 +98,35 @@ type shape struct {
 	dataErr           bool // a read returns bytes together with an error (timeout / EOF / connection error), and
 	dataErrLast       bool // ... the script ends with the first Read of that end's direction after the fault was set up
 	paceClose         bool // an end closes / fails while a chunk read from the other end is being paced out
+	routeFail         bool // the routing store fails deletes
+	stallCase         bool // an end stops draining, the other end has sent and then closes / fails
+	plain             bool // nothing but sends, attach, one fault step, gates and one plain close / error
 }
 
 func shapeOf(g *genLine) shape {
 	var s shape
 	faultDir, readsAfter, sent, pacing := "", 0, map[string]bool{}, false
+	stalledEnd := ""
+	s.plain = true
 	for i, st := range g.Steps {
 		s.lastGate = false
+		switch st.A {
+		case "routefail":
+			s.routeFail = true
+		case "stall":
+			stalledEnd = st.E
+		case "unstall":
+			stalledEnd, s.plain = "", false
+		case "close", "error":
+			if stalledEnd != "" && st.E == other(stalledEnd) && sent[outOf(st.E)] {
+				s.stallCase = true
+			}
+			if st.W == "data" {
+				s.plain = false
+			}
+		case "arm", "glitch", "replace", "closeold", "extclose", "timeout":
+			s.plain = false
+		}
 		if st.K == "tn" || st.W == "data" {
 			s.dataErr, faultDir = true, outOf(st.E)
 		}
@@ -123,7 +165,7 @@ func shapeOf(g *genLine) shape {
 			if !s.attach && st.A != "extclose" {
 				s.endBeforeAttach = true
 			}
-		case "arm", "glitch":
+		case "arm", "glitch", "stall", "unstall", "routefail":
 			s.fault = true
 		case "replace", "closeold":
 			s.replace = true
@@ -136,7 +178,7 @@ func shapeOf(g *genLine) shape {
 
 // keepPermille: share of the enumerated scripts outside the core set that is driven (seeded choice).
 func keepPermille(env *fw.Env, src string) uint64 {
-	q := map[string]uint64{"gen:S1": 8, "gen:S2": 10, "gen:repl": 30, "gen:S2full": 10, "gen:slow": 1000}[src]
+	q := map[string]uint64{"gen:S1": 4, "gen:S2": 10, "gen:repl": 30, "gen:S2full": 10, "gen:slow": 1000}[src]
 	if q == 0 {
 		return 1000 // simulation output is driven entirely
 	}
@@ -185,10 +227,38 @@ func expand(env *fw.Env, src string, raw json.RawMessage) []json.RawMessage {
 		if !s.paceClose || (env.Tier != "thorough" && !endsThere) {
 			return nil
 		}
+	} else if src == "gen:bidi" {
+		// both directions pacing at once under one limiter: free running only, one script per order of
+		// the environment steps (the gates of four paced chunks would take the pacing apart)
+		if !(s.sendS && s.sendT && s.attach && !s.ending && !s.fault && s.want >= 3) {
+			return nil
+		}
+		var env []step
+		for _, st := range g.Steps {
+			if st.A != "R" && st.A != "W" {
+				env = append(env, st)
+			}
+		}
+		key := "bidi-env:" + string(fw.MustJSON(env))
+		seenMu.Lock()
+		dup := seen[key]
+		seen[key] = true
+		seenMu.Unlock()
+		if dup || len(env) != 3 {
+			return nil
+		}
+		b := beh{Lim: g.Lim, Steps: env, Mode: "free", Via: []string{"conn", "stream"}[(h>>8)%2],
+			FinE: []string{"S", "T"}[(h>>9)%2], FinK: "close", Big: 2 * copyBuf}
+		return []json.RawMessage{fw.MustJSON(b)}
+	} else if src == "gen:S1" && s.plain && endsWithEnding(&g) && (g.Lim == "none" || env.Tier == "thorough") &&
+		((s.routeFail && s.want == 0 && !s.hasGate) ||
+			(s.stallCase && len(g.Steps) <= 5 && (env.Tier == "thorough" || onlyClasses(&g, "one", "Bp1")))) {
+		// the minimal scripts of two environment faults, always: the routing store refuses deletes when
+		// the tunnel is torn down; an end that does not drain while the other end sends and goes away
 	} else if s.dataErr && s.dataErrLast && src == "gen:S1" && len(g.Steps) <= 5 {
 		// reads that return bytes together with an error: the minimal scripts (one write, the fault,
 		// the read that takes the bytes) at a higher rate
-		if env.Tier != "thorough" && h%1000 >= 80 {
+		if env.Tier != "thorough" && h%1000 >= 50 {
 			return nil
 		}
 	} else if !core && !s.timeout && h%1000 >= keepPermille(env, src) {
@@ -196,7 +266,7 @@ func expand(env *fw.Env, src string, raw json.RawMessage) []json.RawMessage {
 	}
 	paced := g.Lim == "tiny" || g.Lim == "edge" || g.Lim == "slow"
 	mk := func(mode string, salt uint64) json.RawMessage {
-		b := beh{Lim: g.Lim, Steps: g.Steps, Mode: mode,
+		b := beh{Lim: g.Lim, Steps: g.Steps, Mode: mode, Route: s.routeFail || (h>>13)%4 == 0,
 			Via:   []string{"conn", "stream"}[(h>>8+salt)%2],
 			FinE:  []string{"S", "T"}[(h>>9+salt)%2],
 			FinK:  []string{"close", "error"}[(h>>10)%2],
@@ -385,7 +455,7 @@ func main() {
 			}
 			gen := func(name, maxs, lims, c, faults, repl, ext string) fw.TLCJob {
 				return fw.TLCJob{Name: name, Module: "Bridge", Cfg: "Bridge_gen.cfg", Workers: 1, // one worker: breadth-first order (and so the script chosen per state) is reproducible
-					Consts: map[string]string{"MAXS": maxs, "LIMS": lims, "CLS": c, "FAULTS": faults, "REPL": repl, "EXT": ext, "DEVLIM": devlim}}
+					Consts: map[string]string{"MAXS": maxs, "LIMS": lims, "CLS": c, "FAULTS": faults, "REPL": repl, "EXT": ext, "DEVLIM": devlim, "MAXSLOW": "5"}}
 			}
 			sim := func(n int) fw.TLCJob {
 				j := gen("sim:S3", "3", all, cls, "TRUE", "FALSE", "TRUE")
@@ -398,6 +468,9 @@ func main() {
 				gen("gen:repl", "1", `{"none", "tiny"}`, `{"one", "Bp1"}`, "FALSE", "TRUE", "FALSE"),
 				gen("gen:slow", "1", `{"slow"}`, `{"B"}`, "FALSE", "FALSE", "FALSE"),
 			}
+			bidi := gen("gen:bidi", "2", `{"tiny"}`, `{"B", "big"}`, "FALSE", "FALSE", "FALSE")
+			bidi.Consts["MAXSLOW"] = "9" // S: 64 KiB and T: 32 KiB (or the reverse) at 16383 B/s: ~4 s of pacing
+			jobs = append(jobs, bidi)
 			if env.Tier == "thorough" {
 				return append(jobs, gen("gen:S2full", "2", all, cls, "FALSE", "FALSE", "FALSE"), sim(40))
 			}
@@ -434,6 +507,10 @@ func main() {
 			"a fake connection can return bytes together with an error at a scripted read: (n, temporary timeout), (n, io.EOF) for the last bytes of a closed end, (n, connection error) for a failed end; such bytes count as read",
 			"source replacement is outside the statement's wording: the pipe clauses are kept for the logical source end only after a clean handover (nothing unread on the old connection); closure/forgetting are judged as for any tunnel",
 			"behaviours run in worker child processes; a worker that dies of a Go panic whose topmost frame is tunnox-core code is the observation Crash{fn} (clause Crash), any other worker death is a harness failure (exit 2)",
+			"back-pressure: a stalled end does not drain (a Write to it parks); when the other end has gone the stalled end writes one byte in the finishing phase, closure/forgetting are measured from that byte (before it the bridge has had no occasion to notice)",
+			"a quarter of the behaviours (and every one with routefail) run with a tunnel routing table over a storage double whose Delete of tunnox:tunnel_waiting:* fails once routefail was scripted",
+			"bidirectional pacing: S 64 KiB + T 32 KiB (and the reverse) at 16383 B/s, free running, ~4 s each",
+			"calls of the driver into the bridge that may hang (Close) run beside the script; a hang shows as Closure / Forgotten observations, not as a driver failure",
 			"the generator follows the limiter variant (error / split waits on n > burst) that a probe on the real code shows; both variants are model-checked",
 		},
 		TrustedBase: []string{"TLC", "spec/BridgeTrace.tla as the reading of the statement", "fake connections and byte comparison in drivers/c02",
